@@ -291,6 +291,8 @@ DL = "nostr_relay/dynamic_lists.py"
 KV = "nostr_relay/storage/kv.py"
 
 MUTANTS = [
+    M("c16-clear-then-update", "nostr_relay/dynamic_lists.py", "                global_set.update(local_set)\n                global_set.intersection_update(local_set)\n", "                global_set.clear()\n                global_set.update(local_set)\n", "C16.lists"),
+    M("c16-rebind-empty", "nostr_relay/dynamic_lists.py", "        self.log.info(\"Refreshing global lists\")\n", "        self.log.info(\"Refreshing global lists\")\n        global ALLOWED_PUBKEYS\n        ALLOWED_PUBKEYS = set()\n", "C16.lists"),
     M("c16-size-return-false", VAL, "        raise StorageError(\"invalid: 280 characters should be enough for anybody\")", "        return False", "C16.verdict", canary=True),
     M("c16-size-flip", VAL, "len(event.content) > config.max_event_size", "len(event.content) < config.max_event_size", "C16.verdict"),
     M("c16-size-unused-config", VAL, "len(event.content) > config.max_event_size", "len(event.content) > 4096 * 1024", "C16.verdict"),
